@@ -14,7 +14,11 @@ from hl7apy.parser import get_message_type, get_message_info, parse_message
 from hl7apy.exceptions import HL7apyException
 
 MAXLEN = 8 if THOROUGH else 7
-MAXLEN_PARSE = 6 if THOROUGH else 5
+MAXLEN_PARSE = 4
+ALPHA = ['|', '^', '~', '&', ' ', '\r', 'A']     # 4 distinct punctuation marks, blank, CR, a letter
+NALPHA = len(ALPHA)
+ALEN = 6 if THOROUGH else 5
+NASTR = NALPHA ** ALEN
 
 MSGS = [
     'MSH|^~\\&|A|B|||2020||ADT^A01|1|P|2.5\rPID|1||X^^^H&I||S^N~T\rZZZ|1',
@@ -138,6 +142,30 @@ def _ob_hdr_parse(t: str, strict: bool) -> bool:
     return not _parse_all("MSH" + t, 1 if strict else 2).startswith('crash')
 
 
+def _ob_hdr_alpha(r: int, strict: bool) -> bool:
+    """
+    pre: 0 <= r < NASTR
+    pre: in_part(r)
+    post: _
+    """
+    reset_defaults()
+    lo, hi = 0, NASTR - 1
+    while lo < hi:          # fork down to one concrete string index
+        mid = (lo + hi) // 2
+        if r <= mid:
+            hi = mid
+        else:
+            lo = mid + 1
+    level = 1 if strict else 2
+    with concrete():
+        t = ''
+        q = lo
+        for _ in range(ALEN):
+            t += ALPHA[q % NALPHA]
+            q //= NALPHA
+        return not _parse_all("MSH" + t, level).startswith('crash')
+
+
 def _ob_mut(mi: int, kind: int, p: int, strict: bool) -> bool:
     """
     pre: 0 <= mi < NMSG and 0 <= kind < KINDS
@@ -197,6 +225,9 @@ SPEC = {
         {'name': 'H.parse', 'fn': '_ob_hdr_parse', 'parts': 2 * (MAXLEN_PARSE + 1),
          'cond_timeout': {'quick': 150, 'thorough': 900}, 'path_timeout': 40,
          'bound': 'parse_message("MSH"+t, level)+to_er7+validate: every str t with len(t)<=%d, both levels' % MAXLEN_PARSE},
+        {'name': 'H.parse.alpha', 'fn': '_ob_hdr_alpha', 'parts': 32, 'cond_timeout': {'quick': 600, 'thorough': 3000}, 'path_timeout': 40,
+         'bound': 'parse_message("MSH"+t, level)+to_er7+validate: every t of length %d over the alphabet %r (4 distinct '
+                  'punctuation marks, blank, CR, letter), both levels' % (ALEN, ''.join(ALPHA))},
         {'name': 'P.mut', 'fn': '_ob_mut', 'parts': 16, 'cond_timeout': {'quick': 200, 'thorough': 900}, 'path_timeout': 40,
          'bound': '%d concrete messages x %d mutation kinds of {truncate,delete,duplicate,insert CR} x every position x both levels' % (NMSG, KINDS)},
         {'name': 'P.name', 'fn': '_ob_name', 'parts': 16, 'cond_timeout': {'quick': 150, 'thorough': 900}, 'path_timeout': 40,
